@@ -494,6 +494,41 @@ def feedback_stream(sh, backend, n, mech_fn):
     else: sh.count("feedback_designs_cosimulated"); sh.count("feedback:" + shape.split(":")[0])
 
 
+def gen_consttbl_design(rng, backend="ys"):
+  """a LIST of constant bitstructs (and a constant bitstruct with a list-of-struct field) kept as a component attribute, one field
+  of one entry read with a constant index, a loop variable or a SIGNAL index.  The translator may refuse the non-constant forms;
+  what it accepts has to select the entry the simulation selects"""
+  A, B = rng.choice([(4, 8), (2, 6), (8, 8)])
+  n = rng.choice([2, 2, 4])
+  vals = [(rng.getrandbits(A), rng.getrandbits(B)) for _ in range(n)]
+  if len({v[1] for v in vals}) == 1: vals[-1] = (vals[-1][0], vals[-1][1] ^ 1)          # entries differ in the field that is read
+  iw = (n - 1).bit_length()
+  how = rng.choice(["signal", "signal", "loopvar", "constant", "nested-signal"])
+  # ( my SV reader has no packed arrays of struct type as struct members: the nested form is exercised through the Yosys back end only )
+  if backend == "sv" and how == "nested-signal": how = "signal"
+  L = ["from pymtl3 import *", "@bitstruct", "class CTE:", f"  a: mk_bits({A})", f"  b: mk_bits({B})",
+       "@bitstruct", "class CTW:", "  k: mk_bits(4)", f"  y: [CTE] * {n}",
+       "class CTTop(Component):", "  def construct(s):", f"    s.sel = InPort({iw}); s.out = OutPort({B}); s.acc = OutPort({B})",
+       "    s.TBL = [" + ", ".join(f"CTE({a}, {b})" for a, b in vals) + "]",
+       "    s.CW = CTW(3, [" + ", ".join(f"CTE({a}, {b})" for a, b in vals) + "])",
+       "    @update", "    def up():"]
+  if how == "signal": L += ["      s.out @= s.TBL[s.sel].b", "      s.acc @= 0"]
+  elif how == "nested-signal": L += ["      s.out @= s.CW.y[s.sel].b", "      s.acc @= 0"]
+  elif how == "constant": L += [f"      s.out @= s.TBL[{rng.randrange(n)}].b", f"      s.acc @= s.CW.y[{rng.randrange(n)}].b"]
+  else: L += ["      s.out @= 0", "      s.acc @= 0", f"      for i in range({n}):", "        s.acc @= s.acc + s.TBL[i].b"]
+  return "\n".join(L) + "\n", how
+
+
+def consttbl_stream(sh, backend, n, mech_fn):
+  for case in range(n):
+    rng = sh.rng("consttbl", case)
+    src, how = gen_consttbl_design(rng, backend)
+    before = sh.counters.get("rejected_by_translator", 0)
+    directed(sh, backend, f"consttbl-{case}", src, "CTTop", mech_fn)
+    if sh.counters.get("rejected_by_translator", 0) > before: sh.count("constant_table_designs_refused"); sh.count("consttbl_refused:" + how)
+    else: sh.count("constant_table_designs_cosimulated"); sh.count("consttbl:" + how)
+
+
 def localname_stream(sh, backend, n, mech_fn):
   for case in range(n):
     rng = sh.rng("localname", case)
